@@ -391,6 +391,7 @@ class ClockDevice {
   int64_t prevLoopT = -1;
   bool built = false;
   int64_t carryAtSet = 0;
+  bool syncSet = false;   // clock-keep with a reference clock (CFG syncset=1)
   bool sawCarryGap = false, sawFailThenSuccess = false, sawFail = false;
  public:
   bool nontrivial() const { return opts.armC13 ? sawCarryGap : sawFailThenSuccess; }
